@@ -125,15 +125,31 @@ pub fn decode_events(data: &[u8]) -> (HandleControl, Vec<FlatEv>) {
     (start, v)
 }
 
-/// map arbitrary bytes onto the i8042-translatable alphabet (prefixes kept)
-fn to_xlat_alphabet(data: &[u8]) -> Vec<u8> {
+/// Build a Set 2 stream of WELL-FORMED translatable cells from arbitrary bytes (construction,
+/// not rejection): each pair of input bytes selects (prefix, make/break, code). What the
+/// controller does with malformed input (F0 F0, a prefix in code position) is outside C13.
+fn to_xlat_cells(data: &[u8]) -> Vec<u8> {
     let dom = sc::xlat_domain();
-    data.iter()
-        .map(|b| match *b {
-            0xE0 | 0xE1 | 0xF0 => *b,
-            x => dom[(x as usize) % dom.len()],
-        })
-        .collect()
+    let mut out = Vec::new();
+    for pair in data.chunks(2) {
+        let a = pair[0];
+        let c = dom[(pair.get(1).copied().unwrap_or(0) as usize) % dom.len()];
+        let brk = a & 4 != 0;
+        // the break of 47 / 4F translates to the bytes E0 / E1 (not a complete Set 1 sequence)
+        if brk && matches!(sc::xlat_code(c), Some(t) if matches!(t | 0x80, 0xE0 | 0xE1)) {
+            continue;
+        }
+        match a % 3 {
+            1 => out.push(0xE0),
+            2 => out.push(0xE1),
+            _ => {}
+        }
+        if brk {
+            out.push(0xF0);
+        }
+        out.push(c);
+    }
+    out
 }
 
 /// Does the Set 2 stream contain a complete sequence whose two decodings already disagree
@@ -186,7 +202,7 @@ pub fn decode_case(target: &str, prop: &str, data: &[u8]) -> Option<Value> {
                 return None;
             }
             let layout = (data[0] as usize) % N_LAYOUTS;
-            let s2 = to_xlat_alphabet(&data[1..]);
+            let s2 = to_xlat_cells(&data[1..]);
             sc::xlat_stream(&s2)?;
             if c13_contains_disagreeing_cell(&s2) {
                 return None;
